@@ -82,6 +82,13 @@ CHECKS = {
         note="Trusted: TLC; the read-back of Counted._counter / Mesh._ufl_global_id; vf/elements.py; the functional cmp_expr model for unshared trees (the loop itself is bound by C29). Creation order is kept identical across runs. Optional work is dropped by a deadline under load and counted.",
         design_ref="DESIGN.md §3 C12",
     ),
+    "C09": dict(
+        engine="UFLBuild",
+        technique="TLC enumeration of UFLBuild index-notation programs over geometry terminals J, K, detJ, Identity with consistent values (K J = I, detJ of both signs, pseudo-inverse on manifolds) ending in the action cancelj + replay through cancel_jacobian_products(remove_component_tensors(.)) with value, shape, free-index comparison",
+        text="J, K, detJ and the identity are terminals of the builder whose environments satisfy K J = I (K the left pseudo-inverse for 3x2 J) and detJ = det J with one environment of each sign; TLC enumerates contractions of J and K (both orders, free and contracted outer indices) over a reused pool of index names, with further indexed factors and nested sums, Kronecker-delta contractions, and products of powers of detJ with exponents 2, -1, -2, 1/2, reciprocals and field factors; the pass is an action whose result has the operand's observables.",
+        note=BT + " Geometry values: generic small integer J; detJ rational (pseudo-determinant chosen with a perfect-square Gram determinant).",
+        design_ref="DESIGN.md §3 C09",
+    ),
     "C10": dict(
         engine="UFLBuild",
         technique="TLC enumeration of index-notation programs of UFLBuild ending in the pass actions expand_indices / remove_ct / renumber + replay on the real passes with value, shape, free-index comparison and structural postconditions",
